@@ -333,6 +333,17 @@ CUpdateFw(nids, f, withImage) ==
                                  IF n \in tgt THEN [st |-> "requested", fw |-> f] ELSE ota.sess[n]]]
           /\ nodes' = [n \in DOMAIN nodes |-> IF n \in tgt THEN [nodes[n] EXCEPT !.reboot = TRUE] ELSE nodes[n]]
 
+\* update_fw with an image file that cannot be used (unreadable, not Intel-HEX, or holding no data) or with a firmware
+\* type / version that is not an integer: nothing is scheduled and nothing is registered
+CUpdateFwBad ==
+  /\ out' = <<>> /\ cb' = <<>> /\ exc' = "none"
+  /\ UNCHANGED <<nodes, ota, jobs, metric, pers, dirty, disk, issued>>
+
+\* Gateway.send(text): the string goes to the transport as it is (routing and validation are the caller's business)
+CSend ==
+  /\ cb' = <<>> /\ exc' = "none"
+  /\ UNCHANGED <<nodes, ota, jobs, metric, pers, dirty, disk, issued>>
+
 CMetric(b) ==
   /\ metric' = b
   /\ out' = <<>> /\ cb' = <<>> /\ exc' = "none"
